@@ -1008,7 +1008,7 @@ PROPS = {
     "C03": {"families": ["env", "env2"], "title": "launch fidelity: argv, environment, working directory, program resolution"},
     "C12": {"families": ["env", "env2", "faults"], "title": "start leaves the caller untouched and gives the child a clean signal state"},
     "C10": {"families": ["wiring"], "title": "each standard stream is connected exactly where the options say"},
-    "C11": {"families": ["wiring", "env2"], "title": "nothing else is inherited"},
+    "C11": {"families": ["wiring", "env2", "conc"], "title": "nothing else is inherited"},
     "C13": {"families": ["options", "optprod"], "title": "options rejected up front, accepted as documented"},
     "C04": {"families": ["faults", "env", "wiring", "restart"], "title": "start is all-or-nothing and reports the real cause"},
     "C05": {"families": ["faults", "wiring", "life"], "title": "no leak, no foreign or double close"},
